@@ -757,7 +757,8 @@ class _ARM64_ELF(ABI):
         return ".L"
 
     def default_dwarf_eh_return_column(self) -> int:
-        return 32
+        # x30 (the link register)
+        return 30
 
     def _sym_expr_rules(
         self, module: gtirb.Module
@@ -888,7 +889,8 @@ class _MIPS32_ELF(ABI):
         return ".L"
 
     def default_dwarf_eh_return_column(self) -> int:
-        return 32
+        # $ra
+        return 31
 
     def _sym_expr_rules(
         self, module: gtirb.Module
